@@ -216,9 +216,10 @@ def old_file_text(kind, comments, shape, toks):
 # ----------------------------------------------------------------------------------------------
 
 class Items:
-    """tagged Coq items of one case.  Large literals (file texts, token lists) are bound once per case with `let`
-    (Coq spends its time elaborating literals, ~15 KB/s) and referenced wherever the same Python value recurs."""
-    def __init__(self):
+    """tagged Coq items of one case.  Large literals (file texts, token lists) are defined once per case
+    (Coq spends its time elaborating literals, ~15 KB/s) as top-level definitions and referenced wherever the same Python value recurs."""
+    def __init__(self, cid=0):
+        self.cid = cid
         self.items = []          # (tag, name, coq text)
         self.pool = {}           # coq literal -> variable
     def add(self, name, text):
@@ -228,11 +229,13 @@ class Items:
             return lit
         v = self.pool.get(lit)
         if v is None:
-            v = self.pool[lit] = 'v%d' % len(self.pool)
+            v = self.pool[lit] = 'c%d_v%d' % (self.cid, len(self.pool))
         return v
+    def defs(self):
+        """top-level definitions of the shared literals (nested `let` makes Coq's elaboration blow up)"""
+        return ''.join('Definition %s := %s.\n' % (v, lit) for lit, v in self.pool.items())
     def coq(self):
-        body = '[' + '; '.join('(%d%%Z, %s)' % (t, x) for t, _, x in self.items) + ']'
-        return '(' + ''.join('let %s := %s in\n ' % (v, lit) for lit, v in self.pool.items()) + body + ')'
+        return '[' + '; '.join('(%d%%Z, %s)' % (t, x) for t, _, x in self.items) + ']'
 
 _POOL = [None]      # the Items of the case being encoded (cs / csl of long values go through its pool)
 
@@ -315,7 +318,7 @@ def run(ctx):
     ctx.trusted += ['Section variables of Proofs/FileFormatProofs.v: fmt, parse, round with parse (fmt p x) = round p x and tok_ok (fmt p x) '
                     '(instance tnum proves them satisfiable); the pickle protocol itself (bytes <-> reduce tuple) and gzip are trusted']
     rng = ctx.rng
-    ncases = ctx.pick(150, 3000)
+    ncases = ctx.pick(150, 4000)
     cap = ctx.pick(120, 300)
     cases = []
     for cid in range(ncases):
@@ -395,7 +398,7 @@ def run(ctx):
             ctx.obligation('constructed spectrum of case %d is the generated one' % c['id'], False, 'harness', repr(o)[:300])
             continue
         toks = c['_toks']; atoks = c['_atoks']
-        its = Items(); _POOL[0] = its
+        its = Items(c['id']); _POOL[0] = its
         spec = cspec(shape, toks, o['mask'], o['folded'], o['pop_ids'], None if o['extrap_x'] is None else repr(o['extrap_x']))
         comments_kept = [x.strip() for x in c['comments']]
         if c['fmi']:
@@ -530,7 +533,25 @@ def run(ctx):
 
     header = ('From Coq Require Import String Ascii List Bool NArith ZArith.\nFrom Dadi Require Import Model.FileFormat Model.FileFormatCheck.\n'
               'Import ListNotations.\nOpen Scope list_scope.\nOpen Scope string_scope.')
-    results = ctx.coq_cases('corr', header, exprs, 'ff_check', 'exact (string / structural equality inside Coq)', shard=ctx.pick(15, 60), timeout=1800)
+    # own sharding (ctx.coq_cases cannot emit the per-case shared definitions)
+    shard = ctx.pick(10, 40)
+    files = []
+    for k in range(0, len(exprs), shard):
+        chunk = exprs[k:k + shard]
+        body = [header, '']
+        for cid, ex in chunk:
+            body.append(meta[cid][1].defs() + 'Definition case_%d := %s.' % (cid, ex))
+        body.append('Definition results := map (fun p => (fst p, ff_check (snd p))) [%s].' % '; '.join('(%d%%Z, case_%d)' % (cid, cid) for cid, _ in chunk))
+        body.append('Eval vm_compute in results.')
+        files.append(('C14_corr_%d' % (k // shard), '\n'.join(body) + '\n'))
+    results = {}
+    for nme, (rc, so, se, secs) in lib.run_case_files(files, timeout=1800).items():
+        if rc != 0:
+            ctx.obligation('coqc %s' % nme, False, 'correspondence', se[-600:])
+            continue
+        for cid, ok, e in lib.parse_results(so):
+            results[cid] = (ok, e)
+    ctx.checker_cmds.append('coqc -Q coq/theories Dadi build/cases/C14_corr_*.v  (%d cases, vm_compute, exact string / structural equality inside Coq)' % len(exprs))
     corr_bad = []
     for cid, (c, its) in meta.items():
         rr = results.get(cid)
